@@ -380,6 +380,37 @@ func (e *lcEnv) oracle(before lcSnap, logFrom int, userOp string, userAccepted b
 	return "", ""
 }
 
+// isAncestor: does the chain of known spenders lead from outpoint op to the stored outpoint of
+// account k (in at least one step)?
+func (e *lcEnv) isAncestor(k int, op wire.OutPoint) bool {
+	a, err := e.db.Account(e.accts[k].key.PubKey)
+	if err != nil || a.State == account.StateClosed || a.OutPoint == op {
+		return false
+	}
+	e.logMu.Lock()
+	defer e.logMu.Unlock()
+	for step := 0; step < 40; step++ {
+		tx := e.spenders[op]
+		if tx == nil {
+			return false
+		}
+		next, found := wire.OutPoint{}, false
+		for i, o := range tx.TxOut {
+			if n, ok := e.scripts[string(o.PkScript)]; ok && strings.HasPrefix(n, fmt.Sprintf("%d ", k)) {
+				next, found = wire.OutPoint{Hash: tx.TxHash(), Index: uint32(i)}, true
+			}
+		}
+		if !found {
+			return false
+		}
+		if next == a.OutPoint {
+			return true
+		}
+		op = next
+	}
+	return false
+}
+
 // ------------------------------------------------------------------ executing ops
 
 type lcRunner struct {
@@ -411,7 +442,8 @@ func lcGuard(f func() error) (err error) {
 }
 
 var lcValueErrs = []string{"new account value is", "dust", "only pays", "exceeds input value",
-	"error funding PSBT", "insufficient funds", "results in dust", "minimum account value", "maximum account value"}
+	"error funding PSBT", "insufficient funds", "results in dust", "minimum account value", "maximum account value",
+	"withdrawal output pays to"}
 
 func lcIsValueErr(err error) bool {
 	if err == nil {
@@ -534,8 +566,29 @@ func (x *lcRunner) exec(o lcOp) {
 		accepted bool
 	)
 	key := func(k int) *btcec.PublicKey { return e.accts[k].key.PubKey }
-	completes := o.Op == "complete" || o.Op == "finalize" || o.Op == "spend2" ||
+	completes := o.Op == "complete" || o.Op == "finalize" || o.Op == "spend2" || o.Op == "spendc" ||
 		((o.Op == "spend" || o.Op == "spendd") && (o.Kind == "latest" || o.Kind == "staged" || o.Kind == "foreign"))
+	// an expiry-path spend (sweep, or the account's own expiry close) is not a batch spend: it
+	// must close the account and leave a staged batch alone
+	expirySpend := false
+	if o.Op == "spend" || o.Op == "spendd" {
+		switch o.Kind {
+		case "sweep":
+			expirySpend = true
+		case "latest":
+			if a, err := e.db.Account(key(o.K)); err == nil && a.LatestTx != nil {
+				for _, in := range a.LatestTx.TxIn {
+					if in.PreviousOutPoint == a.OutPoint && (poolscript.IsExpirySpend(in.Witness) ||
+						poolscript.IsTaprootExpirySpend(in.Witness)) {
+						expirySpend = true
+					}
+				}
+			}
+		}
+	}
+	if expirySpend {
+		completes = false
+	}
 	if completes && e.staleBatch && len(e.batchAccts) > 0 {
 		if e.allowStale {
 			e.staleApplied = true
@@ -575,6 +628,21 @@ func (x *lcRunner) exec(o lcOp) {
 	}
 	inBatchBefore := e.inBatch(o.K)
 	batchBefore := append([]int(nil), e.batchAccts...)
+	// fault injection: the auctioneer subscription fails while this event is handled
+	subFault := o.Fail && (o.Op == "conf" || o.Op == "confd" || o.Op == "spend" || o.Op == "spendd" ||
+		o.Op == "spendc" || o.Op == "spend2")
+	if subFault {
+		r.Emit("C08 subfail 1", "ok")
+		e.auct.failSub = true
+		r.Count("fault/subscription")
+		defer func() {
+			e.auct.failSub = false
+			r.Emit("C08 subfail 0", "ok")
+		}()
+	}
+	// a spend reported for an *earlier* outpoint of the account (an ancestor of the stored one)
+	// must not close it
+	staleSpendOf := 0
 	r.Count("op/" + o.Op)
 	switch o.Op {
 	case "init":
@@ -614,6 +682,24 @@ func (x *lcRunner) exec(o lcOp) {
 		case "withdraw":
 			err = lcGuard(func() error {
 				outs := []*wire.TxOut{{Value: o.A, PkScript: lcP2WKH}}
+				if o.Kind2 == "own" {
+					// a withdrawal output paying to the script the re-created account
+					// output will have (new expiry / version applied)
+					if a, aerr := e.db.Account(key(o.K)); aerr == nil {
+						exp, ver := a.Expiry, a.Version
+						if newExp != 0 {
+							exp = newExp
+						}
+						if account.Version(o.V) > ver {
+							ver = account.Version(o.V)
+						}
+						if sc, serr := poolscript.AccountScript(ver.ScriptVersion(), exp, a.TraderKey.PubKey,
+							a.AuctioneerKey, poolscript.IncrementKey(a.BatchKey), a.Secret); serr == nil {
+							outs[0].PkScript = sc
+							r.Count("mod/withdraw-to-own-script")
+						}
+					}
+				}
 				_, _, err := e.mgr.WithdrawAccount(ctx, key(o.K), outs, fee, e.height, newExp, account.Version(o.V))
 				return err
 			})
@@ -733,6 +819,58 @@ func (x *lcRunner) exec(o lcOp) {
 		}
 		r.Count("spend/" + o.Kind)
 
+	case "spendc":
+		// the chain reports the transaction that really spent the outpoint of a live
+		// registration (any position: also a stale watcher of an earlier outpoint)
+		regs := e.notifier.liveRegs(o.K, false)
+		if int(o.A) >= len(regs) {
+			return
+		}
+		rg := regs[o.A]
+		e.logMu.Lock()
+		stx := e.spenders[rg.op]
+		e.logMu.Unlock()
+		if stx == nil {
+			r.Count("spendc/no-spender")
+			return
+		}
+		h := e.height + 1
+		tx := stx.Copy()
+		idx := 0
+		for i, in := range tx.TxIn {
+			if in.PreviousOutPoint == rg.op {
+				idx = i
+			}
+		}
+		mainB, _ := e.records()
+		ver := account.VersionInitialNoVersion
+		if a := mainB[o.K]; a != nil {
+			ver = a.Version
+		}
+		if len(tx.TxIn[idx].Witness) == 0 {
+			tx.TxIn[idx].Witness = lcWitness("multisig", ver)
+		}
+		w := tx.TxIn[idx].Witness
+		if !(poolscript.IsExpirySpend(w) || poolscript.IsMultiSigSpend(w) ||
+			poolscript.IsTaprootMultiSigSpend(w) || poolscript.IsTaprootExpirySpend(w)) {
+			return
+		}
+		if e.isAncestor(o.K, rg.op) {
+			staleSpendOf = o.K
+			r.Count("spendc/stale-watcher")
+		}
+		line = fmt.Sprintf("spendc %d %d %d %d", o.K, o.A, e.txName(tx.TxHash()), h)
+		rg.fired = true
+		select {
+		case rg.spendCh <- &chainntnfs.SpendDetail{SpentOutPoint: &rg.op, SpendingTx: tx,
+			SpenderInputIndex: uint32(idx), SpendingHeight: int32(h)}:
+			<-e.spendDone
+			res = lcRes(e.lastHandlerErr)
+		case <-time.After(5 * time.Second):
+			x.fail("spend notification not consumed by the controller", "C08/harness")
+		}
+		r.Count("spendc/delivered")
+
 	case "spend2":
 		// two spend notifications (e.g. confirmed in the same block) handled by two
 		// controller goroutines at the same time
@@ -841,6 +979,7 @@ func (x *lcRunner) exec(o lcOp) {
 
 	case "drop":
 		err := e.db.DeletePendingBatch()
+		e.dropSpender(e.batchTx)
 		e.batchAccts, e.batchTx = nil, nil
 		res = lcRes(err)
 		line = "drop"
@@ -876,6 +1015,18 @@ func (x *lcRunner) exec(o lcOp) {
 	for i, st := range e.snapshot().state {
 		if before.state[i] != st || before.rec[i] == "" {
 			r.Count(fmt.Sprintf("state/%s", st))
+		}
+	}
+	if x.bad == "" && expirySpend && len(batchBefore) > 0 && len(e.batchAccts) == 0 && res == "ok" {
+		x.fail(fmt.Sprintf("after op #%d (%s): an expiry-path spend of account %d committed the staged batch of accounts %v",
+			len(x.hist)-1, line, o.K, batchBefore), "C08/expiry-spend-completed-batch")
+	}
+	if x.bad == "" && staleSpendOf != 0 {
+		after := e.snapshot()
+		if after.state[staleSpendOf] == account.StateClosed && before.state[staleSpendOf] != account.StateClosed {
+			x.fail(fmt.Sprintf("after op #%d (%s): account %d was closed by the spend of an earlier outpoint although its "+
+				"stored outpoint descends from that spend and is unspent", len(x.hist)-1, line, staleSpendOf),
+				"C08/closed-by-stale-spend")
 		}
 	}
 	if x.bad == "" && !strings.Contains(res, "err") {
@@ -993,9 +1144,12 @@ func (x *lcRunner) stage(o lcOp) (string, string) {
 		ClearingPrices: map[uint32]order.FixedRatePremium{2016: 100},
 		BatchTX:        tx, BatchTxFeeRate: chainfee.FeePerKwFloor, HeightHint: e.height,
 	}
+	prevBatchTx := e.batchTx
 	err := lcGuard(func() error { return e.storer.StorePendingBatch(batch) })
 	if err == nil {
+		e.dropSpender(prevBatchTx)
 		e.batchAccts, e.batchTx = ks, tx
+		e.noteSpender(tx)
 	}
 	return fmt.Sprintf("stage %d %d %d %d %s", e.height, b2i(bv.SupportsAccountExtension()),
 		b2i(bv.SupportsAccountTaprootUpgrade()), e.txName(tx.TxHash()), strings.Join(toks, " ")), lcRes(err)
@@ -1034,7 +1188,20 @@ func (x *lcRunner) restart() (string, string) {
 
 // ------------------------------------------------------------------ generator
 
+// gen: the state-aware generator plus environment faults.
 func (x *lcRunner) gen() lcOp {
+	o := x.gen0()
+	switch o.Op {
+	case "conf", "confd", "spend", "spendc", "spend2":
+		// the auctioneer subscription fails while the event is handled
+		if x.r.Rng.Intn(8) == 0 {
+			o.Fail = true
+		}
+	}
+	return o
+}
+
+func (x *lcRunner) gen0() lcOp {
 	e := x.e
 	rng := x.r.Rng
 	main, staged := e.records()
@@ -1057,6 +1224,9 @@ func (x *lcRunner) gen() lcOp {
 		return lcOp{Op: pick("conf", "spend"), K: k, A: int64(rng.Intn(2)), Kind: pick("sweep", "foreign", "latest")}
 	case p < 18 && len(staged) > 0:
 		return lcOp{Op: pick("complete", "drop", "finalize")}
+	case p < 40 && len(staged) > 0:
+		// the Finalize message arrives
+		return lcOp{Op: "finalize"}
 	}
 	if !exists {
 		return lcOp{Op: "init", K: k, A: 100000 + int64(rng.Intn(5))*40000000, B: int64(rng.Intn(3)) * 500,
@@ -1078,6 +1248,12 @@ func (x *lcRunner) gen() lcOp {
 			o.A = 20000 + int64(rng.Intn(5))*30000000
 		case "withdraw":
 			o.A = 20000 + int64(rng.Intn(4))*int64(a.Value)/3
+			if rng.Intn(6) == 0 {
+				// to the script of the re-created account output, with an expiry change
+				o.Kind2, o.A = "own", 150000
+				o.B = 144 + int64(rng.Intn(2000))
+				return o
+			}
 		}
 		switch q := rng.Intn(10); {
 		case kind == "renew" && q < 8:
@@ -1121,6 +1297,36 @@ func (x *lcRunner) gen() lcOp {
 	}
 	confs := e.notifier.liveRegs(k, true)
 	spends := e.notifier.liveRegs(k, false)
+	// the chain reports the real spender of a watched outpoint – on any live watcher,
+	// stale ones (earlier outpoints) first
+	if rng.Intn(100) < 12 {
+		type cand struct{ k, pos int }
+		var stale, cur []cand
+		for j := 1; j <= lcNumAccts; j++ {
+			regs := e.notifier.liveRegs(j, false)
+			for pos, rg := range regs {
+				e.logMu.Lock()
+				_, ok := e.spenders[rg.op]
+				e.logMu.Unlock()
+				if !ok {
+					continue
+				}
+				if pos < len(regs)-1 || e.isAncestor(j, rg.op) {
+					stale = append(stale, cand{j, pos})
+				} else {
+					cur = append(cur, cand{j, pos})
+				}
+			}
+		}
+		if len(stale) > 0 {
+			c := stale[rng.Intn(len(stale))]
+			return lcOp{Op: "spendc", K: c.k, A: int64(c.pos)}
+		}
+		if len(cur) > 0 && rng.Intn(2) == 0 {
+			c := cur[rng.Intn(len(cur))]
+			return lcOp{Op: "spendc", K: c.k, A: int64(c.pos)}
+		}
+	}
 	// two transactions confirmed in the same block: concurrent spend handlers
 	if rng.Intn(100) < 12 {
 		type cand struct {
@@ -1204,7 +1410,8 @@ func (x *lcRunner) gen() lcOp {
 		case q < 7 && len(spends) > 0:
 			rg := spends[len(spends)-1]
 			return lcOp{Op: "spend", K: k, A: int64(len(spends) - 1), Kind: spendKind(rg)}
-		case q == 7 && a.State == account.StatePendingBatch:
+		case (q == 7 || q == 8) && a.State == account.StatePendingBatch && len(staged) == 0:
+			// consecutive batches without a confirmation in between
 			return stageOp()
 		case q == 8:
 			return lcOp{Op: "block", A: int64(a.Expiry) - int64(e.height)}
